@@ -354,9 +354,9 @@ impl Prop for C32 {
     }
     fn budget(&self, tier: Tier) -> usize {
         match tier {
-            Tier::Quick => 2500,
-            Tier::Thorough => 60000,
-            Tier::Search => 20000,
+            Tier::Quick => 12000,
+            Tier::Thorough => 200000,
+            Tier::Search => 40000,
         }
     }
     fn gen_case(&mut self, rng: &mut Rng, _tier: Tier, idx: usize) -> Vec<String> {
